@@ -187,6 +187,10 @@ class ParseModel(object):
         self.ps = self.decls['parse_sentence']
         self.env = cxx.Env(self.ps)
         self.env.functions = {k[3:]: v for k, v in self.decls.items() if k.startswith('fn:')}
+        # functions / static member functions that build a chart item field by field stand for its initialiser list
+        self.env.records = {'cell_item': cxx.fields_of(self.decls['cell_item'])}
+        self.env.static_builders = {k.name: k for k in self.decls['cell_item'].kids if k.kind == 'CXXMethodDecl'
+                                    and any(c.kind == 'CompoundStmt' for c in k.kids) and k.storage == 'static'}
         self.env.alias_inline = True
         self.item_fields = cxx.fields_of(self.decls['cell_item'])
         self.result_fields = cxx.fields_of(self.decls['combinator_result'])
@@ -276,6 +280,7 @@ class ParseModel(object):
                     self.lam['unary'] = name
         # ... or one lookup function (at namespace scope) that gets the callback as an argument
         self.lookup_fn = None
+        self.lookup_obj = None
         if set(self.lam) != {'binary', 'unary'}:
             for key, fnode in self.decls.items():
                 if not key.startswith('fn:'):
@@ -289,8 +294,12 @@ class ParseModel(object):
                         if all(x[0] == 'var' and x[1] in fps for x in a[:3]):
                             self.lookup_fn = {'name': key[3:], 'node': fnode, 'params': fps, 'scaffold': callee.ref,
                                               'cb': a[0][1], 'x': a[1][1], 'y': a[2][1]}
+            # ... or a local object of a small header class whose methods ask the callbacks it was constructed with
+            self.lookup_obj = None
             if self.lookup_fn is None:
-                raise AnalysisError('%s: callback lambdas / rule lookup function not found' % H)
+                self.lookup_obj = self._find_lookup_object(locals_, ctor_args)
+            if self.lookup_fn is None and self.lookup_obj is None:
+                raise AnalysisError('%s: callback lambdas / rule lookup function / rule lookup object not found' % H)
 
         # outside-estimate plumbing: compute_outside_probabilities(vec, length, mat)
         self.outside = []   # (vec, mat)
@@ -315,6 +324,76 @@ class ParseModel(object):
         self.init_loop = self.init_loops[0]
         self._init_loop_roles()
 
+    def _find_lookup_object(self, locals_, ctor_args):
+        for name, d in locals_.items():
+            cname = (d.type or '').replace('parsing::', '').replace('class ', '').replace('struct ', '').strip()
+            rec = self.decls.get(cname)
+            if rec is None or rec.kind != 'CXXRecordDecl' or cname in ('chart', 'matrix', 'cell_item', 'config'):
+                continue
+            args = ctor_args(d)
+            if not args:
+                continue
+            ctors = [k for k in rec.kids if k.kind == 'CXXConstructorDecl' and any(c.kind == 'CXXCtorInitializer' for c in k.kids)
+                     and len([p_ for p_ in k.kids if p_.kind == 'ParmVarDecl']) == len(args)]
+            if len(ctors) != 1:
+                continue
+            cparams = [p_.name for p_ in ctors[0].kids if p_.kind == 'ParmVarDecl']
+            member = {}
+            for ini in [c for c in ctors[0].kids if c.kind == 'CXXCtorInitializer']:
+                refs = [x.ref for x in ini.walk() if x.kind == 'DeclRefExpr' and x.ref in cparams]
+                if len(refs) == 1:
+                    member[ini.name] = args[cparams.index(refs[0])]
+            # the method that asks: calls through a member bound to the scaffold parameter
+            asks = []
+            for meth in [k for k in rec.kids if k.kind == 'CXXMethodDecl' and any(c.kind == 'CompoundStmt' for c in k.kids)]:
+                menv = cxx.Env(meth)
+                mps = [p_.name for p_ in cxx.params_of(meth)]
+                for c in meth.find('CallExpr'):
+                    callee = strip(c.kids[0])
+                    if callee.kind == 'MemberExpr' and member.get(callee.name) == V(self.p_scaffold) and len(c.kids) == 5:
+                        a = [term(x, menv) for x in c.kids[1:]]
+                        asks.append({'node': meth, 'name': meth.name, 'params': mps, 'cb': a[0], 'x': a[1], 'y': a[2], 'scaffold_member': callee.name})
+            if not asks:
+                continue
+            cache_members = [k for k, v in member.items() if v == V(self.p_cache)]
+            if len(cache_members) != 1:
+                continue
+            return {'local': name, 'record': rec, 'class': cname, 'member': member, 'asks': asks, 'cache_member': cache_members[0]}
+        return None
+
+    def _members_resolved(self, t):
+        lo = self.lookup_obj
+        mp = {('mem', ('this',), k): v for k, v in lo['member'].items()}
+        return cxx.subst(t, mp)
+
+    def _object_lookup(self, t):
+        """rules.binary(x, y) on the lookup object -> (callback term, x, y) by following its forwarding methods"""
+        lo = self.lookup_obj
+        meth, args = t[2], t[3]
+        for _ in range(4):
+            nodes = [k for k in lo['record'].kids if k.kind == 'CXXMethodDecl' and k.name == meth and any(c.kind == 'CompoundStmt' for c in k.kids)]
+            if len(nodes) != 1:
+                return None
+            node = nodes[0]
+            ps = [p_.name for p_ in cxx.params_of(node)]
+            if len(ps) != len(args):
+                return None
+            b = {('var', p_): a for p_, a in zip(ps, args)}
+            hit = [a for a in lo['asks'] if a['node'] is node]
+            if hit:
+                a = hit[0]
+                return tuple(self._members_resolved(cxx.subst(a[k_], b)) for k_ in ('cb', 'x', 'y'))
+            P = Paths(node, cxx.Env(node))
+            if len(P.paths) != 1 or P.paths[0][1] or P.paths[0][2] is None:
+                return None
+            r = P.paths[0][2]
+            if r[0] != 'mcall' or r[1] != ('this',):
+                return None
+            args = tuple(cxx.subst(x, b) for x in r[3])
+            args = tuple(lo['member'].get(x[2], x) if (x[0] == 'mem' and x[1] == ('this',)) else x for x in args)
+            meth = r[2]
+        return None
+
     def rules_call(self, t):
         """canonical spelling of a rule lookup: ('call', 'rules:binary', (x, y)) / ('call', 'rules:unary', (x,)); other
         terms are returned unchanged (recursively inside deref)"""
@@ -336,6 +415,16 @@ class ParseModel(object):
                     y = b[lf['y']]
                     const_y = not [x for x in cxx.subterms(y) if x[0] in ('var', 'mem', 'call', 'mcall', 'idx')]
                     return ('call', 'rules:unary' if const_y else 'rules:unary-with-second-id', (b[lf['x']],))
+        lo = getattr(self, 'lookup_obj', None)
+        if lo is not None and t[0] == 'mcall' and t[1] == V(lo['local']):
+            r = self._object_lookup(t)
+            if r is not None:
+                cb, x, y = r
+                if cb == V(self.p_bin):
+                    return ('call', 'rules:binary', (x, y))
+                if cb == V(self.p_un):
+                    const_y = not [z for z in cxx.subterms(y) if z[0] in ('var', 'mem', 'call', 'mcall', 'idx')]
+                    return ('call', 'rules:unary' if const_y else 'rules:unary-with-second-id', (x,))
         return t
 
     def _one_local(self, pred, what):
@@ -435,6 +524,8 @@ class ParseModel(object):
                 continue
             lenv = cxx.Env(op)
             lenv.functions = env.functions
+            lenv.records = getattr(env, 'records', None)
+            lenv.static_builders = getattr(env, 'static_builders', {})
             lenv.alias_inline = True
             lenv.lambdas = env.lambdas
             params = [p.name for p in cxx.params_of(op)]
